@@ -66,7 +66,7 @@ type Case struct {
 
 func setup() {
 	c := ev.C()
-	c.Rule = "the client library driven through a scripted stub GRIBIClient: RIB-ack or FIB-ack mode, 1-6 requests of 1-20 operations over all entry kinds queued at drawn points, and an adversarial server schedule: results in any order across ids that keeps RIB-before-FIB per id (FAILED | RIB_PROGRAMMED | RIB then FIB_PROGRAMMED/FIB_FAILED/FAILED | FIB_PROGRAMMED alone), arbitrarily grouped into responses, interleaved with the election and session-parameter responses; plus violating schedules (result for an unknown id, duplicate terminal result, multi-field response); plus an operation id handed in a second time while unanswered (inside one request or in a later one), every distinct id answered once: AwaitConverged must not return nil. The application acknowledges results at drawn points (AckResult: exactly those results leave Results(), ids without a result are reported as an error). Pending/Results/Status are polled concurrently by a sampler goroutine. Oracle (client model: queued -> pending -> terminal result): at every probe and at the end each handed-over id is in exactly one of pending / terminal-result, result sequences per id equal what the server sent, every result carries the operation type and key of its id, a RIB ack never completes an operation in FIB-ack mode, AwaitConverged returns nil iff nothing is pending and no error was recorded (checked in both directions) and a *ClientErr with the recorded errors after a violating schedule. Non-trivial = results reordered across ids or >=2 results in one response, or FIB-ack mode with the RIB and FIB acks of an id in different responses; distinct by FNV-64 of the case JSON."
+	c.Rule = "the client library driven through a scripted stub GRIBIClient: RIB-ack or FIB-ack mode, 1-6 requests of 1-20 operations over all entry kinds queued at drawn points, and an adversarial server schedule: results in any order across ids that keeps RIB-before-FIB per id (FAILED | RIB_PROGRAMMED | RIB then FIB_PROGRAMMED/FIB_FAILED/FAILED | FIB_PROGRAMMED alone), arbitrarily grouped into responses, interleaved with the election and session-parameter responses; plus violating schedules (result for an unknown id, duplicate terminal result, multi-field response); plus an operation id handed in a second time while unanswered (inside one request or in a later one), every distinct id answered once: AwaitConverged must not return nil. The application acknowledges results at drawn points (AckResult: exactly those results leave Results(), ids without a result are reported as an error). Pending/Results/Status are polled concurrently by a sampler goroutine. Oracle (client model: queued -> pending -> terminal result): at every probe and at the end each handed-over id is in exactly one of pending / terminal-result, result sequences per id equal what the server sent, every result carries the operation type and key of its id, a RIB ack never completes an operation in FIB-ack mode, AwaitConverged returns nil iff nothing is pending and no error was recorded (checked in both directions) and a *ClientErr with the recorded errors after a violating schedule. Non-trivial = results reordered across ids or >=2 results in one response, or FIB-ack mode with the RIB and FIB acks of an id in different responses; distinct by FNV-64 of the case JSON. Later additions: requests carrying the election id together with operations."
 	c.Assumptions = []string{"client.BusyLoopDelay is set to 1ms (exported tunable); negative AwaitConverged expectations use a 5ms context and only assert that nil is NOT returned"}
 }
 
